@@ -80,7 +80,7 @@ theorem poolsOf_mem {m : List Region} {r : Region} (hr : r ∈ m) (ht : r.typ = 
         · exact this
         · exact List.mem_cons_of_mem _ this
 
-theorem poolsOf_sorted {m : List Region} (h : SortedMap m) : RangesSorted (ranges (poolsOf m)) := by
+theorem poolsOf_disjoint {m : List Region} (h : DisjointMap m) : RangesSorted (ranges (poolsOf m)) := by
   induction m with
   | nil => simp [poolsOf, ranges, RangesSorted]
   | cons r rs ih =>
@@ -101,10 +101,13 @@ theorem poolsOf_sorted {m : List Region} (h : SortedMap m) : RangesSorted (range
         obtain ⟨p, hp, rfl⟩ := List.mem_map.1 hq
         obtain ⟨r', hr', _, hfr, rfl⟩ := mem_poolsOf hp
         have hle := hs.1 r' hr'
-        show regionEndExcl r - 1 < regionStart r'
+        show regionEndExcl r - 1 < regionStart r' ∨ regionEndExcl r' - 1 < regionStart r
         unfold regionEndExcl regionStart at *
         rw [ps4] at *
         omega
+
+theorem poolsOf_sorted {m : List Region} (h : SortedMap m) : RangesSorted (ranges (poolsOf m)) :=
+  poolsOf_disjoint h.disjoint
 
 theorem totalOf_eq_nSum_aux (ps : List Pool) (t : Nat) (h : t + nSum ps < 4294967296) :
     ps.foldl (fun t p => u32 (t + u32 (p.end_ - p.start + 1))) t = t + nSum ps := by
@@ -130,7 +133,7 @@ theorem le_nSum_of_mem {ps : List Pool} {p : Pool} (h : p ∈ ps) : p.n ≤ nSum
   obtain ⟨i, hi⟩ := List.mem_iff_getElem?.1 h
   exact le_sum_of_getElem? ps (·.n) i p hi
 
-theorem bm0_inv {m : List Region} (hs : SortedMap m) (hsm : nSum (poolsOf m) < 4294967296) : Inv (bm0 m) := by
+theorem bm0_inv_any {m : List Region} (hs : DisjointMap m) (hsm : nSum (poolsOf m) < 4294967296) : Inv (bm0 m) := by
   have hpools : ∀ p ∈ poolsOf m, PoolInv p := by
     intro p hp
     obtain ⟨r, _, _, hfr, rfl⟩ := mem_poolsOf hp
@@ -146,10 +149,13 @@ theorem bm0_inv {m : List Region} (hs : SortedMap m) (hsm : nSum (poolsOf m) < 4
     obtain ⟨r, _, _, _, rfl⟩ := mem_poolsOf hp
     show countClear (List.replicate _ _) _ = _
     rw [countClear_replicate]
-  refine ⟨hpools, poolsOf_sorted hs, Nat.zero_le _, ?_, ?_, ?_⟩
+  refine ⟨hpools, poolsOf_disjoint hs, Nat.zero_le _, ?_, ?_, ?_⟩
   · show totalOf _ < _; rw [totalOf_eq_nSum _ hsm]; exact hsm
   · show totalOf (poolsOf m) - 0 = freeSum (poolsOf m); rw [totalOf_eq_nSum _ hsm, hfs]; rfl
   · show totalOf _ = _; exact totalOf_eq_nSum _ hsm
+
+theorem bm0_inv {m : List Region} (hs : SortedMap m) (hsm : nSum (poolsOf m) < 4294967296) : Inv (bm0 m) :=
+  bm0_inv_any hs.disjoint hsm
 
 theorem bm0_isFree (m : List Region) (g : Nat) :
     isFree (bm0 m) g ↔ managed (ranges (poolsOf m)) g := by
